@@ -61,6 +61,17 @@ Theorem C15_single_add_fires_iff : forall g t cols recs r,
   memz r (fired g t [UAdd cols recs]) = spec g t [UAdd cols recs] r.
 Proof. intros g t cols recs r H. apply fires_iff_spec. apply regular_single_add. exact H. Qed.
 
+(* The model carries switches for the repairs proposed in /verif/notes/proposed_fixes/C15-*.diff ([fx g]; the
+   harness sets them by replaying the witnesses of the known findings on the source).  With the three repairs
+   add-with-value, exemption-lost and explicit-value-trimmed in place, the property holds at full strength for
+   every bundle of record actions (adds, updates, removals, replayed record actions) - what remains excluded is
+   a record update after a schema change in the same bundle (the two stale-edge findings). *)
+Theorem C15_repaired_fires_iff : forall g t b r,
+  fx_add (fx g) = true -> fx_lost (fx g) = true -> fx_trim (fx g) = true ->
+  forallb record_action b = true ->
+  In r (rows (step g t b)) -> unconstrained g t b r = false -> memz r (fired g t b) = spec g t b r.
+Proof. exact fires_iff_spec_repaired. Qed.
+
 (* ---------------------------------------------------------------- the five refutations (columns: 0 = trigger
    column, 1..3 = data columns A B C, 4 = formula column F reading B, 5 = formula column G reading C) *)
 Definition fc := [(4, 2); (5, 3)].
@@ -78,7 +89,7 @@ Theorem C15_refuted_add_with_value : exists g t b r,
   In r (rows (step g t b)) /\ unconstrained g t b r = false /\ bundle_flags g t b = only_add /\
   memz r (fired g t b) = true /\ spec g t b r = false.
 Proof.
-  exists {| when := DEFAULT; deps := [1]; fcols := fc |}, empty_tbl, [UAdd [1; 0] [(1, [(1, 3); (0, 50)])]], 1.
+  exists {| when := DEFAULT; deps := [1]; fcols := fc; fx := no_fixes |}, empty_tbl, [UAdd [1; 0] [(1, [(1, 3); (0, 50)])]], 1.
   repeat split; try (vm_compute; reflexivity). vm_compute. left. reflexivity.
 Qed.
 
@@ -88,8 +99,8 @@ Theorem C15_refuted_exemption_lost : exists g t b r,
   In r (rows (step g t b)) /\ unconstrained g t b r = false /\ bundle_flags g t b = only_lost /\
   memz r (fired g t b) = true /\ spec g t b r = false.
 Proof.
-  exists {| when := DEFAULT; deps := [1]; fcols := fc |},
-         (mechanism {| when := DEFAULT; deps := [1]; fcols := fc |} [three_rows]),
+  exists {| when := DEFAULT; deps := [1]; fcols := fc; fx := no_fixes |},
+         (mechanism {| when := DEFAULT; deps := [1]; fcols := fc; fx := no_fixes |} [three_rows]),
          [UUpd [1; 0] [(1, [(1, 5); (0, 77)])]; UUpd [2] [(2, [(2, 1)])]], 1.
   repeat split; try (vm_compute; reflexivity). vm_compute. left. reflexivity.
 Qed.
@@ -100,8 +111,8 @@ Theorem C15_refuted_stale_edge : exists g t b r,
   In r (rows (step g t b)) /\ unconstrained g t b r = false /\ bundle_flags g t b = only_stale /\
   memz r (fired g t b) = false /\ spec g t b r = true.
 Proof.
-  exists {| when := DEFAULT; deps := [1]; fcols := fc |},
-         (mechanism {| when := DEFAULT; deps := [1]; fcols := fc |} [three_rows]),
+  exists {| when := DEFAULT; deps := [1]; fcols := fc; fx := no_fixes |},
+         (mechanism {| when := DEFAULT; deps := [1]; fcols := fc; fx := no_fixes |} [three_rows]),
          [UDocs [DRename 1]; UUpd [1] [(1, [(1, 100)])]], 1.
   repeat split; try (vm_compute; reflexivity). vm_compute. left. reflexivity.
 Qed.
@@ -113,8 +124,8 @@ Theorem C15_refuted_formula_edges_cleared : exists g t b r,
   In r (rows (step g t b)) /\ unconstrained g t b r = false /\ bundle_flags g t b = only_fstale /\
   memz r (fired g t b) = false /\ spec g t b r = true.
 Proof.
-  exists {| when := DEFAULT; deps := [4]; fcols := fc |},
-         (mechanism {| when := DEFAULT; deps := [4]; fcols := fc |} [three_rows]),
+  exists {| when := DEFAULT; deps := [4]; fcols := fc; fx := no_fixes |},
+         (mechanism {| when := DEFAULT; deps := [4]; fcols := fc; fx := no_fixes |} [three_rows]),
          [UDocs [DModify 2]; UUpd [2] [(1, [(2, 9)])]], 1.
   repeat split; try (vm_compute; reflexivity). vm_compute. left. reflexivity.
 Qed.
@@ -125,11 +136,33 @@ Theorem C15_refuted_trimmed_value : exists g t b r,
   In r (rows (step g t b)) /\ unconstrained g t b r = false /\ bundle_flags g t b = only_trim /\
   memz r (fired g t b) = true /\ spec g t b r = false.
 Proof.
-  exists {| when := DEFAULT; deps := [4]; fcols := fc |},
-         (mechanism {| when := DEFAULT; deps := [4]; fcols := fc |} [three_rows]),
+  exists {| when := DEFAULT; deps := [4]; fcols := fc; fx := no_fixes |},
+         (mechanism {| when := DEFAULT; deps := [4]; fcols := fc; fx := no_fixes |} [three_rows]),
          [UUpd [0; 2] [(1, [(0, 1); (2, 9)])]], 1.
   repeat split; try (vm_compute; reflexivity). vm_compute. left. reflexivity.
 Qed.
+
+(* The same witnesses on the repaired model: the first, second, third and fifth now agree with the sentence
+   (the fourth, formula-edges-cleared, has no repair). *)
+Definition all_fixes := {| fx_add := true; fx_lost := true; fx_stale := true; fx_trim := true |}.
+Example C15_repaired_witnesses :
+  let gA := {| when := DEFAULT; deps := [1]; fcols := fc; fx := all_fixes |} in
+  let gF := {| when := DEFAULT; deps := [4]; fcols := fc; fx := all_fixes |} in
+  (let b := [UAdd [1; 0] [(1, [(1, 3); (0, 50)])]] in
+   regular gA empty_tbl b = true /\ fired gA empty_tbl b = []) /\
+  (let t := mechanism gA [three_rows] in
+   let b := [UUpd [1; 0] [(1, [(1, 5); (0, 77)])]; UUpd [2] [(2, [(2, 1)])]] in
+   regular gA t b = true /\ fired gA t b = []) /\
+  (let t := mechanism gA [three_rows] in
+   let b := [UDocs [DRename 1]; UUpd [1] [(1, [(1, 100)])]] in
+   regular gA t b = true /\ fired gA t b = [1]) /\
+  (let t := mechanism gF [three_rows] in
+   let b := [UUpd [0; 2] [(1, [(0, 1); (2, 9)])]] in
+   regular gF t b = true /\ fired gF t b = []) /\
+  (let t := mechanism gF [three_rows] in
+   let b := [UDocs [DModify 2]; UUpd [2] [(1, [(2, 9)])]] in
+   regular gF t b = false /\ fired gF t b = []).
+Proof. vm_compute. repeat split; reflexivity. Qed.
 
 Theorem C15_refuted : ~ C15_trigger_fires_iff.
 Proof.
@@ -138,11 +171,11 @@ Proof.
 Qed.
 
 (* ---------------------------------------------------------------- non-vacuity and the unconstrained zone *)
-Definition gA := {| when := DEFAULT; deps := [1]; fcols := fc |}.
-Definition gF := {| when := DEFAULT; deps := [4]; fcols := fc |}.
-Definition gSelf := {| when := DEFAULT; deps := [1; 0]; fcols := fc |}.
-Definition gNever := {| when := NEVER; deps := [1]; fcols := fc |}.
-Definition gManual := {| when := MANUAL_UPDATES; deps := []; fcols := fc |}.
+Definition gA := {| when := DEFAULT; deps := [1]; fcols := fc; fx := no_fixes |}.
+Definition gF := {| when := DEFAULT; deps := [4]; fcols := fc; fx := no_fixes |}.
+Definition gSelf := {| when := DEFAULT; deps := [1; 0]; fcols := fc; fx := no_fixes |}.
+Definition gNever := {| when := NEVER; deps := [1]; fcols := fc; fx := no_fixes |}.
+Definition gManual := {| when := MANUAL_UPDATES; deps := []; fcols := fc; fx := no_fixes |}.
 
 (* regular bundles exist for every clause of the sentence, and the mechanism really fires / does not fire *)
 Example C15_regular_examples :
